@@ -30,8 +30,40 @@ RUN_LOOPS = {
 }
 
 
+NONE_CHAIN = {
+    # callee name -> discriminant of the result when the argument's discriminant is the "nothing" one
+    # (Option: None = 0; Result: Err = 1; ControlFlow: Break = 1)
+    "ok_or": 1,
+    "ok_or_else": 1,
+    "branch": 1,
+    "ok": 0,
+    "map": None,  # preserves the discriminant
+    "map_err": None,
+    "copied": None,
+    "cloned": None,
+}
+
+
+def none_discriminant(body, local, defs, depth=0):
+    """If `local` derives from an Iterator::next result, the discriminant value it has exactly when the
+    iterator was exhausted; else None."""
+    src = prov.origin(body, local, defs)
+    if src[0] != "call" or not src[1] or depth > 6:
+        return None
+    name = src[1]["name"]
+    if name == "next":
+        return 0
+    if name in NONE_CHAIN and src[4]["args"] and src[4]["args"][0]["k"] in ("copy", "move"):
+        inner = none_discriminant(body, src[4]["args"][0]["place"]["l"], defs, depth + 1)
+        if inner is None:
+            return None
+        return inner if NONE_CHAIN[name] is None else NONE_CHAIN[name]
+    return None
+
+
 def exhaustion_exits(body, loop_blocks):
-    """Edges leaving the loop from a block that switches on the result of an Iterator::next call."""
+    """Edges leaving the loop that are taken exactly when an Iterator::next result was None (directly,
+    or after ok_or/`?`, which turn None into Err / Break)."""
     out = []
     defs = prov.Defs(body)
     for b in loop_blocks:
@@ -41,11 +73,17 @@ def exhaustion_exits(body, loop_blocks):
         org = prov.operand_origin(body, t["discr"], defs)
         # discriminant(x) where x is the result of *::next
         if org[0] == "op" and org[1]["k"] == "discriminant":
-            src = prov.origin(body, org[1]["place"]["l"], defs)
-            if src[0] == "call" and src[1] and src[1]["name"] == "next":
-                for s in body.succs(b):
-                    if s not in loop_blocks and body.blocks[s]["term"]["k"] != "unreachable":
-                        out.append((b, s))
+            nd = none_discriminant(body, org[1]["place"]["l"], defs)
+            if nd is None:
+                continue
+            tgt = None
+            for v, bb in t["targets"]:
+                if int(v) == nd:
+                    tgt = bb
+            if tgt is None:
+                tgt = t["otherwise"]
+            if tgt is not None and tgt not in loop_blocks and body.blocks[tgt]["term"]["k"] != "unreachable":
+                out.append((b, tgt))
     return out
 
 
@@ -117,22 +155,26 @@ def sort_before_merge(prog, rep):
         for bb, t in b.calls():
             if bb in sorts:
                 sorted_vec = base_local(b, t["args"][0], defs)
+        # what the merge loop iterates: the receiver of the `next` call that controls it, traced back through
+        # the for-loop's `iter` binding, into_iter / iter to the collection
         it = None
-        for bb, t in b.calls():
-            if t["callee"] and t["callee"]["name"] == "iter" and any(bb in dom[h] for h in heads):
-                it = base_local(b, t["args"][0], defs)
+        for head in heads:
+            for bi in sorted(loops[head]):
+                t = b.blocks[bi]["term"]
+                if t["k"] == "call" and t["callee"] and t["callee"]["name"] == "next" and not b.blocks[bi]["cleanup"]:
+                    it = base_local(b, t["args"][0], defs, skip_names=("iter",))
         same = sorted_vec is not None and sorted_vec == it
         rep.ob("sort-before-merge", b.id + " same vector", same, "sorted `%s`, merged `%s`" % (b.local_name(sorted_vec) if sorted_vec is not None else None, b.local_name(it) if it is not None else None), b.where())
 
 
-def base_local(body, o, defs, depth=0):
+def base_local(body, o, defs, depth=0, skip_names=()):
     """The named local an operand ultimately borrows from (through reborrows, Deref::deref, iter)."""
     if o["k"] not in ("copy", "move"):
         return None
     l = o["place"]["l"]
     while depth < 12:
         depth += 1
-        if body.locals[l]["name"]:
+        if body.locals[l]["name"] and body.locals[l]["name"] not in skip_names:
             return l
         ds = defs.whole_defs(l)
         if len(ds) != 1:
